@@ -20,6 +20,14 @@ def _get_properties_dict(properties):
         ) from e
 
 
+def _restore_property_order(obj):
+    # A property added after construction goes where construction would have
+    # put it: the defined properties in their order, then custom ones.
+    ordered = {k: obj._inner[k] for k in obj._properties if k in obj._inner}
+    ordered.update(obj._inner)
+    obj._inner = ordered
+
+
 def _custom_object_builder(cls, type, properties, version, base_class):
     prop_dict = _get_properties_dict(properties)
 
@@ -35,6 +43,7 @@ def _custom_object_builder(cls, type, properties, version, base_class):
             if ext and version != '2.0':
                 if 'extensions' not in self._inner:
                     self._inner['extensions'] = {}
+                    _restore_property_order(self)
                 self._inner['extensions'][ext] = class_for_type(ext, version, "extensions")()
 
     _CustomObject.__name__ = cls.__name__
@@ -81,6 +90,7 @@ def _custom_observable_builder(cls, type, properties, version, base_class, id_co
             if ext and version != '2.0':
                 if 'extensions' not in self._inner:
                     self._inner['extensions'] = {}
+                    _restore_property_order(self)
                 self._inner['extensions'][ext] = class_for_type(ext, version, "extensions")()
 
     _CustomObservable.__name__ = cls.__name__
